@@ -1,6 +1,6 @@
 (* C02 — saving is repeatable and never alters the in-memory model; block level, on the SyncIR programs
    GENERATED from /repo. *)
-From NiflyVerif Require Import IR Exec IREq Refs RtDefs RtProofs WiDefs WiProofs WkDefs WkProofs WkSound Total Versions IRCur.
+From NiflyVerif Require Import IR Exec IREq Refs RtDefs RtProofs WiDefs WiProofs WkDefs WkProofs WkSound WkPrune Total Versions IRCur.
 Local Open Scope N_scope.
 
 (* The write-once discipline is sound, for ALL programs it accepts, all version triples and header-string
@@ -31,6 +31,23 @@ Theorem C02_block_write_idem : forall v hs b,
 Proof. exact block_write_idem_loops. Qed.
 Print Assumptions C02_block_write_idem.
 
+(* the same after pruning: branches a write run of this version never takes (conditions on the version triple
+   and on the stream mode) are removed before the discipline is applied - a member that only the READ branch
+   assigns is not modified by a write run. The pruned program runs exactly like the original one
+   (WkPrune.prune_exec), so the statement is about the original Sync chain. [kchk_block_any]: accepted as it
+   stands or after pruning. *)
+Theorem C02_block_write_idem_pruned : forall v hs b,
+  kchk_block_any v b = true ->
+  forall o o1, exec Wr v hs (snd b) o = Ok o1 ->
+  exists bytes, out o1 = rev bytes ++ out o /\
+    exists o2, exec Wr v hs (snd b) o1 = Ok o2 /\ out o2 = rev bytes ++ out o1 /\ ext_eq o2 o1.
+Proof. exact block_write_idem_any. Qed.
+Print Assumptions C02_block_write_idem_pruned.
+
+Theorem C02_prune_preserves_runs : forall v hs s st, exec Wr v hs (prune v s) st = exec Wr v hs s st.
+Proof. exact prune_exec. Qed.
+Print Assumptions C02_prune_preserves_runs.
+
 (* the two facts the loop rule rests on *)
 Theorem C02_index_encoding_injective : forall f l1 l2, enc_key f l1 = enc_key f l2 -> l1 = l2.
 Proof. exact EncInj.enc_key_inj. Qed.
@@ -50,10 +67,10 @@ Print Assumptions C02_block_round_trip.
 (* the block types for which the idempotence obligation is discharged for ALL supported version triples,
    and the per-version counts *)
 Definition C02_proved_ids : list N :=
-  map fst (filter (fun x => forallb (fun v => kchk_block v (snd x)) supported_versions) IRCur.block_table).
+  map fst (filter (fun x => forallb (fun v => kchk_block_any v (snd x)) supported_versions) IRCur.block_table).
 Eval vm_compute in C02_proved_ids.
 Definition C02_proved_per_version : list nat :=
-  map (fun v => length (filter (fun x => kchk_block v (snd x)) IRCur.block_table)) supported_versions.
+  map (fun v => length (filter (fun x => kchk_block_any v (snd x)) IRCur.block_table)) supported_versions.
 Eval vm_compute in C02_proved_per_version.
 
 (* non-vacuity: a field assigned after it was transferred is rejected (the second write would emit another
